@@ -154,6 +154,7 @@ def run(ctx, rep):
                        "write_bytes can return Ok WITHOUT writing and renaming (e.g. an 'already exists' shortcut): the stored bytes may differ from what was written")
     # ---- C20.d the reader feeding io::copy never reports end-of-data early -----------------------------------
     BR = prog.find1(r"^<rustic_core::backend::BytesListReader as std::io::Read>::read$")
+    reader_no_gap_rule(ctx, rep, "C20.d")
     inner = [(bb, t) for bb, t in BR.calls() if "callee" in t and re.search(r"std::io::Read>::read$|std::io::Read::read$", callee(t) + " " + callee_decl(t)) and "BytesListReader" not in callee(t)]
     rep.require("C20.d", "inner-reads", len(inner) >= 1, where=BR.loc(), what=f"BytesListReader::read reads from the current chunk ({len(inner)} site(s))")
     for i, (bb, t) in enumerate(inner, 1):
@@ -296,3 +297,63 @@ def run(ctx, rep):
                             ok, why = True, reason
                 rep.check("C20.e", f"{fn_key(b)}/{c}/{ordn[k]}", ok, where=where(b, bb), what=f"{fn_key(b)}: Result of {c} is {kind}" + (f" [exception: {why}]" if why else ""))
     rep.floor("C20.e", "file-system call sites in the local backend", n, 5)
+
+
+def reader_no_gap_rule(ctx, rep, R):
+    """BytesListReader::read (the reader that `hash_reader` and `io::copy` consume a pack's BytesList through) never returns
+    between two chunks"""
+    prog = ctx.prog
+    BR = prog.find1(r"^<rustic_core::backend::BytesListReader as std::io::Read>::read$")
+    # evaluated: with the current chunk exhausted (inner read = Ok(0)) while another chunk remains (remaining.next() = Some),
+    # read() does not return at all in that round - it must go on with the next chunk. Any return (of the inner result or of a
+    # rebuilt Ok(count)) would signal end-of-data in the middle of the list.
+    import pathsens
+
+    def _is_count(x):
+        return isinstance(x, tuple) and x and x[0] == "proj" and "io::Read" in repr(x[1])[:600] and "BytesListReader" not in repr(x[1])[:600] and any(v in ("Ok", "Continue") for v in (x[3] if len(x) > 3 else []))
+
+    def _fz(body, bb):
+        t = body.term(bb)
+        if t["k"] != "switch":
+            return None
+        e = flow.expr_of(body, t["discr"], bb)
+        if e[0] == "path" and e[1][0] == "local" and not e[2]:
+            for s_ in body.blocks[bb]["s"]:
+                if s_[0] == "=" and s_[1] == [e[1][1]] and s_[2][0] == "discr":
+                    e = ("discr", flow.place_expr(body, s_[2][1]), s_[2][2])
+        if e[0] == "discr":
+            txt = repr(e[1])
+            ty = str(e[2]) if len(e) > 2 else ""
+            if "Option<" in ty and "Iterator>::next" in txt:
+                tg = [x for v, x in t["targets"] if v == "1"]
+                return tg[0] if tg else t["otherwise"]
+            if ("Result<usize" in ty or "ControlFlow<" in ty) and "io::Read" in txt and "BytesListReader" not in txt:
+                tg = [x for v, x in t["targets"] if v == "0"]
+                return tg[0] if tg else None
+            return None
+        if t["discr_ty"] == "usize" and _is_count(e):
+            tg = [x for v, x in t["targets"] if v == "0"]
+            return tg[0] if tg else t["otherwise"]
+        return None
+    ev_ = num_eval([(_is_count, 0), (lambda x: isinstance(x, tuple) and x and x[0] == "call" and x[1].endswith("::len"), 4096)])
+
+    def _fz2(body, bb):
+        r_ = _fz(body, bb)
+        if r_ is not None:
+            return r_
+        t = body.term(bb)
+        if t["k"] == "switch" and t["discr_ty"] == "bool":
+            e = flow.expr_of(body, t["discr"], bb)
+            neg = False
+            while e[0] == "un" and e[1] == "Not":
+                neg = not neg
+                e = e[2]
+            v = ev_(body, e)
+            if isinstance(v, bool):
+                zero = [x for vv, x in t["targets"] if vv == "0"]
+                return (t["otherwise"] if (v != neg) else zero[0]) if zero else None
+        return None
+    r_mid = pathsens.reachable_under(BR, _fz2, eval_expr=lambda b_, e_: ev_(b_, e_))
+    rets_mid = [bi for bi in r_mid if any(s_[0] == "=" and s_[1] == [0] for s_ in BR.blocks[bi]["s"]) or (BR.term(bi)["k"] == "call" and BR.term(bi).get("dest") == [0])]
+    rep.check(R, "no-return-between-chunks", not rets_mid, where=BR.loc(), what="BytesListReader::read never returns in a round where the current chunk gave 0 bytes while another chunk remains" if not rets_mid else
+              "BytesListReader::read can return (Ok(0)) although further chunks remain - when a chunk ends exactly at the caller's buffer boundary the stream looks finished: hashes cover a prefix, copies are truncated")
